@@ -25,6 +25,15 @@ package main
 //   cli-incremental   the REAL BINARY reading a named pipe, /dev/stdin or a stdin pipe that
 //                     stays open: the output of the complete values of the first part must
 //                     be on stdout while the rest has not been sent yet
+//   fault-after-assign  programs that assign $file / $ / $index, the fault in the value after
+//                     the assignment or in a later file: the error names the real file
+//                     (truncate-corrupt and io-error draw a third of their programs from the
+//                     same pool)
+//   big-values        streams with top-level values of 1 kB - 3 MB (around 4 KiB, 32 KiB,
+//                     64 KiB +- 1, 100 KiB, 300 KiB) at the start / in the middle / at the
+//                     end, delivered whole, in exact bursts, one byte per read around the end
+//                     of the big value, and through the real binary; closed-form oracle: every
+//                     value once, in order
 
 import (
 	"bytes"
@@ -42,6 +51,45 @@ var c03Programs = []string{
 	"BEGINFILE { print \"B\", $file } { print \"v\", $ } ENDFILE { print \"E\" }",
 	"BEGINFILE { n++; print \"B\", n, $ }\nEND { print \"END\", n }",
 	"BEGIN { print \"start\" }\n$ is number { s += $ }\n{ print \"v\", $, s }\nENDFILE { print \"E\" }\nEND { print \"end\", s }",
+}
+
+// programs that assign the variables the driver publishes per value ($file, $, $index) in
+// BEGINFILE / pattern / ENDFILE rules, in patterns and through functions: the next value's
+// (or the next file's) JSON input error must still name the real input file, and the driver
+// must publish the real name again with every value
+var c03AssignProgs = []string{
+	"BEGINFILE { $file = \"input #\" + (++n) } { print \"v\", $file, $ }",
+	"ENDFILE { $file = [] } { print \"v\", $ }",
+	"{ print \"v\", $file, $; $file = \"renamed\" }",
+	"{ $file = null; print \"v\", $ }",
+	"BEGINFILE { $file = 7 } { print \"v\", $file, $ } ENDFILE { print \"E\", $file }",
+	"($file = \"x\") { print \"v\", $ }",
+	"{ $ = [$, $file]; $file = $file + \"!\"; print \"v\", $ }",
+	"BEGINFILE { $ = {f: $file}; $file = \"\" } { print \"v\", $ } ENDFILE { print \"E\", $file, $ }",
+	"function f() { $file = \"fn\" }\n{ f(); print \"v\", $ }",
+	"{ $file += 1; print \"v\", $file }",
+	"BEGINFILE { print \"B\", $file } { print \"v\", $ } ENDFILE { $file = {gone: true}; $ = null; print \"E\" }",
+	"ENDFILE { $file = \"other.json\"; print \"E\", $file }",
+	"{ $ = $file; print \"v\", $ } ENDFILE { $file = $file + $file }",
+	"{ if ($ is number) { $file = \"num\" } else { $file = true }\n print \"v\", $file }",
+	"$file ~ /json/ { $file = \"no match next time\"; print \"v\", $ }",
+}
+
+// the same with $index, which the driver publishes only while it iterates a top-level array: on
+// other roots these programs end in a runtime error (only used where the oracle allows for that)
+var c03AssignIndexProgs = []string{
+	"{ $index = \"i\"; print \"v\", $index, $ }",
+	"{ $file++; print \"v\", $file, $index++ }",
+	"BEGINFILE { $file = $ } { $file = [$file, $index] } ENDFILE { print \"E\", $file }",
+	"$ is number { $index = $index + 10; $file = $index; print \"v\", $file, $ }",
+}
+
+// c03PickProg: a program of the plain pool, or (one time in three) one that assigns $file / $ / $index
+func c03PickProg(r *rand.Rand) string {
+	if chance(r, 0.34) {
+		return pick(r, c03AssignProgs)
+	}
+	return pick(r, c03Programs)
 }
 
 // the program of the incrementality oracle: exactly one line "E" per top-level value
@@ -713,13 +761,13 @@ func init() {
 
 	register(Family{
 		Name: "truncate-corrupt", Prop: "C03",
-		Rule: "short valid streams: every truncation point, and at every position a byte replaced / inserted (from a pool of structural, whitespace, digit, letter, control and non-UTF-8 bytes) / deleted; compared with the model; oracle via encoding/json: ok only if the whole stream is values+whitespace, json error names the file, and (Group) the output equals the output of the clean run on the longest valid prefix of complete values; non-trivial = json error after some output, or ok with output",
+		Rule: "short valid streams (a third of them under programs that assign $file / $ in BEGINFILE, pattern and ENDFILE rules: the error must name the real file all the same): every truncation point, and at every position a byte replaced / inserted (from a pool of structural, whitespace, digit, letter, control and non-UTF-8 bytes) / deleted; compared with the model; oracle via encoding/json: ok only if the whole stream is values+whitespace, json error names the file, and (Group) the output equals the output of the clean run on the longest valid prefix of complete values; non-trivial = json error after some output, or ok with output",
 		Gen: func(r *rand.Rand, tier string, emit func(Case)) {
 			pool := []byte{']', '}', '[', '{', ',', ':', '"', ' ', '\n', 'x', '0', '9', '-', '.', 'e', '\\', 0x00, 0xff, 0xc3, 't', 'n', '/', '+'}
 			name := "data.json"
 			nt := func(i Resp) bool { return i["out"] != "-" && i["out"] != "" }
 			for si := 0; si < tierN(tier, 40, 400); si++ {
-				prog := pick(r, c03Programs)
+				prog := c03PickProg(r)
 				var base []byte
 				for {
 					base = c03Stream(r, 2+r.Intn(4), false)
@@ -775,12 +823,12 @@ func init() {
 
 	register(Family{
 		Name: "io-error", Prop: "C03",
-		Rule: "the reader fails with an I/O error after every prefix of a stream -- the error in a Read call of its own or in the SAME call as the last bytes (all bytes at once, one byte per read, random reads, with reads that return (0, nil)): class must be json naming the file, and the output must equal (Group) the output of the clean run on the values complete at the failure (composites at their closing bracket, scalars only once a following byte was read); compared with the model; non-trivial = some value was processed before the failure",
+		Rule: "the reader fails with an I/O error after every prefix of a stream (a third of the streams under programs that assign $file / $) -- the error in a Read call of its own or in the SAME call as the last bytes (all bytes at once, one byte per read, random reads, with reads that return (0, nil)): class must be json naming the file, and the output must equal (Group) the output of the clean run on the values complete at the failure (composites at their closing bracket, scalars only once a following byte was read); compared with the model; non-trivial = some value was processed before the failure",
 		Gen: func(r *rand.Rand, tier string, emit func(Case)) {
 			name := "pipe.json"
 			nt := func(i Resp) bool { return i["out"] != "-" && i["out"] != "" }
 			for si := 0; si < tierN(tier, 150, 2000); si++ {
-				prog := pick(r, c03Programs)
+				prog := c03PickProg(r)
 				var base []byte
 				if si < len(c03ShortStreams) && si%2 == 0 {
 					base = []byte(c03ShortStreams[si])
@@ -927,4 +975,540 @@ func c03Corrupt(r *rand.Rand, s []byte) []byte {
 	default:
 		return append(append(append([]byte{}, s[:k]...), pick(r, pool)), s[k:]...)
 	}
+}
+
+// ---- fault-after-assign ---------------------------------------------------------------
+//
+// The JSON input error names the FILE it was read from -- whatever the rules did to $file,
+// $ and $index while the earlier values were processed. Two or three files; the fault
+// (truncation, corruption, failing reader) sits in the value after an assignment of the
+// same file, or in a later file.
+
+func c03FaultAfterAssign(r *rand.Rand, tier string, emit func(Case)) {
+	fields := []string{"class", "out", "file"}
+	nt := func(i Resp) bool { return i["class"] == "json" && i["out"] != "-" && i["out"] != "" }
+	names := []string{"a.json", "b.json", "c.json", "dir/d.json", "<stdin>", "x y.json", "renamed", "x", "other.json", "é.json", "7", ""}
+	for si := 0; si < tierN(tier, 700, 8000); si++ {
+		prog := pick(r, c03AssignProgs)
+		switch si % 8 {
+		case 6:
+			prog = pick(r, c03AssignIndexProgs)
+		case 7:
+			prog = pick(r, c03Programs)
+		}
+		nf := 1 + r.Intn(3)
+		perm := r.Perm(len(names))
+		faultAt := r.Intn(nf)
+		if chance(r, 0.1) {
+			faultAt = -1 // no fault at all: END rules run, class ok
+		}
+		var files, cleanFiles []File
+		var what string
+		for f := 0; f < nf; f++ {
+			name := names[perm[f]]
+			if name == "" && chance(r, 0.7) {
+				name = "e.json"
+			}
+			var data []byte
+			for {
+				data = c03Stream(r, 1+r.Intn(4), false)
+				if _, ok := c03Scan(data); ok {
+					break
+				}
+			}
+			fl := File{Name: name, Data: data}
+			if f > faultAt && faultAt >= 0 {
+				files = append(files, fl) // never read
+				continue
+			}
+			clean := fl
+			if f == faultAt {
+				switch r.Intn(5) {
+				case 0, 1: // truncated inside a value (or between values: then there is no fault)
+					k := r.Intn(len(data) + 1)
+					fl.Data = append([]byte{}, data[:k]...)
+					what = fmt.Sprintf("file %d truncated after %d bytes", f, k)
+				case 2:
+					fl.Data = c03Corrupt(r, data)
+					what = fmt.Sprintf("file %d: one byte corrupted", f)
+				case 3:
+					fl.Data = append(append([]byte{}, data...), []byte(pick(r, []string{" ]", "}", " x", "\n{\"id\": \n", ",", "[1, 2", "\"open", "tru", "\x00"}))...)
+					what = fmt.Sprintf("file %d: stray text after the last value", f)
+				default:
+					k := r.Intn(len(data) + 1)
+					fl.Data, fl.IOErr = append([]byte{}, data[:k]...), true
+					what = fmt.Sprintf("file %d: the reader fails after %d bytes", f, k)
+					if chance(r, 0.4) {
+						fl.DataErr = true
+						what += " (in the same Read call as the last bytes)"
+					}
+				}
+				if fl.IOErr {
+					clean.Data = c03IOErrPrefix(fl.Data)
+				} else {
+					ends, _ := c03Scan(fl.Data)
+					clean.Data = nil
+					if len(ends) > 0 {
+						clean.Data = fl.Data[:ends[len(ends)-1]]
+					}
+				}
+			}
+			files = append(files, fl)
+			cleanFiles = append(cleanFiles, clean)
+		}
+		// is there a fault after all? (a truncation between values is none)
+		wantFile, faulty := "", false
+		if faultAt >= 0 {
+			_, valid := c03Scan(files[faultAt].Data)
+			faulty = !valid || files[faultAt].IOErr
+			wantFile = files[faultAt].Name
+		}
+		g := fmt.Sprintf("assign-%d", si)
+		var metaFiles []string
+		for f, fl := range files {
+			metaFiles = append(metaFiles, fmt.Sprintf("file %d", f), fmt.Sprintf("%q = %q", fl.Name, fl.Data))
+		}
+		meta := func(extra ...string) map[string]string {
+			return metaProg(prog, append(append([]string{}, metaFiles...), extra...)...)
+		}
+		if faulty {
+			emit(Case{ID: g + "/clean", Req: RunReq(prog, nil, cleanFiles, false), Fields: fields, Group: g,
+				Meta: meta("role", "clean run on the values complete before the fault (reference of its group)"), NonTrivial: c03NT})
+		}
+		req := RunReq(prog, nil, files, false)
+		c := Case{ID: g + "/fault", Req: req, Fields: fields, Meta: meta("fault", what), NonTrivial: nt,
+			Oracle: func(i Resp) string {
+				switch i["class"] {
+				case "runtime": // a program of the pool that fails on this value: not this family's business
+					return ""
+				case "ok":
+					if faulty {
+						return "class ok although " + what
+					}
+					return ""
+				case "json":
+					if !faulty {
+						return "JSON input error on streams that are valid"
+					}
+					if got := string(i.Bytes("file")); got != wantFile {
+						return fmt.Sprintf("the JSON input error names %q, the faulty input is %q (%s)", got, wantFile, what)
+					}
+					return ""
+				}
+				return "unexpected outcome class " + i["class"] + " (" + i["msg"] + ")"
+			}}
+		if files[faultAt0(faultAt)].DataErr {
+			// the model knows no read schedules
+			plain := append([]File{}, files...)
+			plain[faultAt].DataErr = false
+			c.ModelReq = RunReq(prog, nil, plain, false)
+		}
+		if faulty {
+			c.Group = g
+			c.GroupCheck = func(first, self Resp) string {
+				if first["class"] != "ok" || self["class"] == "runtime" {
+					return ""
+				}
+				return c03PrefixCheck(first, self)
+			}
+		}
+		emit(c)
+	}
+}
+
+func faultAt0(k int) int {
+	if k < 0 {
+		return 0
+	}
+	return k
+}
+
+// ---- big-values -----------------------------------------------------------------------
+//
+// Streams in which one or more top-level values are BIG (around and beyond the sizes at which
+// a decoder's buffer grows or a "memory optimisation" might kick in: 4 KiB, 32 KiB, 64 KiB +- 1,
+// 100 KiB, 300 KiB, 1 MiB), with small values before and after them. Every value must be
+// processed exactly once and in order however the bytes arrive.
+
+const c03BigProg = "function id(v) {\n if (v is object) return v.n\n if (v is array) return v[0]\n if (v is string) return num(v.split(\":\")[0])\n return v\n}\n" +
+	"function sz(v) {\n if (v is object) {\n  p = v.pad\n  if (p is string || p is array || p is object) return p.length()\n  return 0\n }\n if (v is array || v is string) return v.length()\n return 0\n}\n" +
+	"BEGINFILE { c++; i = id($); s += i * c; print i, sz($) }\n{ recs++ }\nEND { print \"count\", c, \"records\", recs, \"sum\", s }"
+
+// c03Pad returns JSON text of exactly n bytes (n >= 16) of the given kind.
+func c03Pad(r *rand.Rand, kind string, n int) string {
+	fillStr := func(n int) string { // a JSON string of exactly n >= 2 bytes
+		return `"` + strings.Repeat("x", n-2) + `"`
+	}
+	var sb strings.Builder
+	switch kind {
+	case "escapes":
+		// every escape form and multi-byte text; the rest plain
+		sb.WriteString(`"`)
+		units := []string{`\n`, `é`, "é", `\"`, `\\`, "日本", `🙂`, "ab c", `\/`, `\t`}
+		for sb.Len()+16 < n {
+			sb.WriteString(units[r.Intn(len(units))])
+		}
+		sb.WriteString(strings.Repeat("y", n-1-sb.Len()))
+		sb.WriteString(`"`)
+	case "array":
+		sb.WriteString("[")
+		for i := 0; sb.Len()+24 < n; i++ {
+			sb.WriteString(strconv.Itoa(i%1000) + ",")
+		}
+		sb.WriteString(fillStr(n - 1 - sb.Len()))
+		sb.WriteString("]")
+	case "objects":
+		sb.WriteString("[")
+		for i := 0; sb.Len()+64 < n; i++ {
+			sb.WriteString(fmt.Sprintf(`{"k":%d,"s":"v%d","l":[%d,null,true]},`, i, i%7, i%13))
+		}
+		sb.WriteString(fillStr(n - 1 - sb.Len()))
+		sb.WriteString("]")
+	case "deep":
+		// an object nested a few hundred levels, a long string at the bottom
+		d := 50 + r.Intn(400)
+		for d*6+8 > n {
+			d /= 2
+		}
+		sb.WriteString(strings.Repeat(`{"a":`, d))
+		sb.WriteString(fillStr(n - 6*d))
+		sb.WriteString(strings.Repeat("}", d))
+	case "wide":
+		// an object with many keys (a few hundred at most: kept small enough for the model) and long values
+		sb.WriteString("{")
+		k := 20 + r.Intn(200)
+		per := n / k
+		for i := 0; i < k && sb.Len()+per+40 < n; i++ {
+			key := fmt.Sprintf(`"key%d":`, i)
+			if per > len(key)+3 {
+				sb.WriteString(key + fillStr(per-len(key)-1) + ",")
+			}
+		}
+		sb.WriteString(`"z":`)
+		sb.WriteString(fillStr(n - 1 - sb.Len()))
+		sb.WriteString("}")
+	default: // "string"
+		return fillStr(n)
+	}
+	if sb.Len() != n {
+		panic(fmt.Sprintf("c03Pad(%s, %d) made %d bytes", kind, n, sb.Len()))
+	}
+	return sb.String()
+}
+
+// c03BigValue: a top-level value of exactly `size` bytes carrying the id.
+func c03BigValue(r *rand.Rand, id, size int, kind string) string {
+	switch kind {
+	case "top-string":
+		pre := fmt.Sprintf(`"%d:`, id)
+		return pre + strings.Repeat("s", size-len(pre)-1) + `"`
+	case "top-array":
+		// the rule driver iterates a top-level array: its elements are the records
+		pre := fmt.Sprintf(`[%d,`, id)
+		return pre + c03Pad(r, "string", size-len(pre)-1) + "]"
+	case "top-array-long":
+		pre := fmt.Sprintf(`[%d,`, id)
+		body := c03Pad(r, "array", size-len(pre)-1)
+		return pre + body[1:len(body)-1] + " ]"
+	}
+	pre := fmt.Sprintf(`{"n":%d,"pad":`, id)
+	return pre + c03Pad(r, kind, size-len(pre)-1) + "}"
+}
+
+func c03SmallValue(r *rand.Rand, id int) string {
+	switch r.Intn(10) {
+	case 0:
+		return strconv.Itoa(id)
+	case 1:
+		return fmt.Sprintf(`[%d, "x"]`, id)
+	case 2:
+		return fmt.Sprintf(`"%d:small"`, id)
+	case 3:
+		return fmt.Sprintf(`{"n": %d, "pad": [1, 2, 3]}`, id)
+	default:
+		return fmt.Sprintf(`{"n":%d}`, id)
+	}
+}
+
+// c03BigLines: the lines the BEGINFILE rule of c03BigProg prints for the values, and the END line.
+func c03BigLines(vals []string) (lines []string, end string) {
+	c, recs, sum := 0, 0, 0
+	for _, v := range vals {
+		var x interface{}
+		if err := json.Unmarshal([]byte(v), &x); err != nil {
+			panic("c03BigLines: generated value is not JSON: " + err.Error())
+		}
+		id, sz, nrec := 0, 0, 1
+		length := func(p interface{}) int {
+			switch q := p.(type) {
+			case string:
+				return len(q)
+			case []interface{}:
+				return len(q)
+			case map[string]interface{}:
+				return len(q)
+			}
+			return 0
+		}
+		switch t := x.(type) {
+		case map[string]interface{}:
+			id = int(t["n"].(float64))
+			sz = length(t["pad"])
+		case []interface{}:
+			id, sz, nrec = int(t[0].(float64)), len(t), len(t)
+		case string:
+			id, _ = strconv.Atoi(strings.SplitN(t, ":", 2)[0])
+			sz = len(t)
+		case float64:
+			id = int(t)
+		}
+		c++
+		recs += nrec
+		sum += id * c
+		lines = append(lines, fmt.Sprintf("%d %d\n", id, sz))
+	}
+	return lines, fmt.Sprintf("count %d records %d sum %d\n", c, recs, sum)
+}
+
+func c03BigValues(r *rand.Rand, tier string, emit func(Case)) {
+	fields := []string{"class", "out", "file"}
+	sizes := []int{61440, 65535, 65536, 65537, 66560, 102400, 307200, 4095, 4097, 8193, 16385, 32767, 32768, 32769, 131071, 131073, 262145, 70000, 1000}
+	kinds := []string{"string", "array", "deep", "escapes", "objects", "wide", "top-string", "top-array", "top-array-long"}
+	rounds := 1
+	if tier == "thorough" {
+		sizes = append(sizes, 524289, 1<<20+1, 3<<20)
+		rounds = 8
+	}
+	haveBin := os.Getenv("JQAWK_BIN") != ""
+	si := 0
+	for round := 0; round < rounds; round++ {
+		for zi, size := range sizes {
+			si++
+			kind := kinds[(zi+round*4+si/len(sizes))%len(kinds)]
+			if round > 0 {
+				kind = pick(r, kinds)
+			}
+			if kind == "wide" && size > 150000 {
+				kind = "objects"
+			}
+			// layout: small values, the big one(s), small values
+			layout := []string{"start", "middle", "end", "middle", "two", "adjacent", "middle"}[(zi+round)%7]
+			nBefore, nAfter := 1+r.Intn(30), 1+r.Intn(60)
+			switch layout {
+			case "start":
+				nBefore = 0
+			case "end":
+				nAfter = 0
+			}
+			var vals []string
+			var bigIdx []int
+			id := 0
+			small := func(n int) {
+				for j := 0; j < n; j++ {
+					id++
+					vals = append(vals, c03SmallValue(r, id))
+				}
+			}
+			big := func(sz int, k string) {
+				id++
+				bigIdx = append(bigIdx, len(vals))
+				vals = append(vals, c03BigValue(r, id, sz, k))
+			}
+			small(nBefore)
+			big(size, kind)
+			switch layout {
+			case "two":
+				small(1 + r.Intn(20))
+				big(pick(r, sizes[:7]), pick(r, kinds))
+			case "adjacent":
+				big(pick(r, sizes[:7]), pick(r, kinds[:6]))
+				if chance(r, 0.5) {
+					big(size, "string")
+				}
+			}
+			small(nAfter)
+			// the byte stream; offsets of the ends of the values
+			var sb strings.Builder
+			ends := make([]int, len(vals))
+			sepPool := []string{"\n", "\n", " ", "", "\r\n", "  \n\t", "\n\n"}
+			sepStyle := r.Intn(3) // 0: newline always, 1: mixed, 2: nothing where legal
+			for k, v := range vals {
+				if k > 0 {
+					sep := "\n"
+					switch sepStyle {
+					case 1:
+						sep = pick(r, sepPool)
+					case 2:
+						sep = ""
+					}
+					if sep == "" && !c03SepLegal(vals[k-1], v) {
+						sep = " "
+					}
+					sb.WriteString(sep)
+				}
+				sb.WriteString(v)
+				ends[k] = sb.Len()
+			}
+			if chance(r, 0.5) {
+				sb.WriteString("\n")
+			}
+			data := []byte(sb.String())
+			lines, endLine := c03BigLines(vals)
+			want := strings.Join(lines, "") + endLine
+			name := "stream.data"
+			g := fmt.Sprintf("big-%d", si)
+			desc := fmt.Sprintf("%d values, %d bytes; big value(s) of kind %s, %d bytes, at index %v (layout %s), ends at byte %d", len(vals), len(data), kind, size, bigIdx, layout, ends[bigIdx[0]])
+			meta := func(how string) map[string]string {
+				return map[string]string{"program": c03BigProg, "stream": desc, "delivery": how, "expected output": short(want)}
+			}
+			oracle := func(i Resp) string {
+				if i["class"] != "ok" {
+					return "a valid stream: class " + i["class"] + " " + i["msg"] + " file=" + string(i.Bytes("file"))
+				}
+				if got := string(i.Bytes("out")); got != want {
+					gl := strings.SplitAfter(got, "\n")
+					k := 0
+					for k < len(gl) && k < len(lines) && gl[k] == lines[k] {
+						k++
+					}
+					return fmt.Sprintf("every value must be processed once, in order: %d values; the output differs from line %d on; it ends with %q, expected %q", len(vals), k+1, short(lastLine(got)), endLine)
+				}
+				return ""
+			}
+			wholeReq := RunReq(c03BigProg, nil, []File{{Name: name, Data: data}}, false)
+			emit(Case{ID: g + "/whole", Req: wholeReq, Fields: fields, Group: g, GroupFields: fields, Meta: meta("as much as the decoder asks for per Read"), Oracle: oracle})
+			E := ends[bigIdx[len(bigIdx)-1]] // end of the last big value
+			E0 := ends[bigIdx[0]]
+			type sched struct {
+				how     string
+				ch      []int
+				exact   bool
+				dataErr bool
+			}
+			rep := func(c, total int) []int {
+				var ch []int
+				for s := 0; s < total; s += c {
+					ch = append(ch, c)
+				}
+				return ch
+			}
+			around := func(e, before, n int) []int {
+				b := e - before
+				if b < 1 {
+					b = 1
+				}
+				ch := []int{b}
+				for j := 0; j < n; j++ {
+					ch = append(ch, 1)
+				}
+				return append(ch, len(data))
+			}
+			randBursts := func() []int {
+				var ch []int
+				max := pick(r, []int{700, 5000, 40000, 70000, 200000})
+				for s := 0; s < len(data); {
+					k := 1 + r.Intn(max)
+					ch = append(ch, k)
+					s += k
+				}
+				return ch
+			}
+			scheds := []sched{
+				{"everything and io.EOF in one Read call", nil, false, true},
+				{"bursts of 4 KiB", rep(4096, len(data)), true, false},
+				{"bursts of 64 KiB", rep(65536, len(data)), true, false},
+				{"bursts of 512 bytes", rep(512, len(data)), true, false},
+				{"random bursts", randBursts(), true, false},
+				{"random bursts, the last one together with io.EOF", randBursts(), true, true},
+				{"one byte per read from 40 bytes before the end of the big value to 60 bytes after it", around(E, 40, 100), true, false},
+				{"a burst that ends exactly at the end of the big value", []int{E0, len(data)}, true, false},
+				{"a burst that ends one byte after the big value", []int{E0 + 1, len(data)}, true, false},
+				{"a burst that ends one byte before the end of the big value", []int{E0 - 1, len(data)}, true, false},
+				{"a burst that ends a few values after the big value", []int{E + 1 + r.Intn(200), len(data)}, true, false},
+				{"reads of at most 4096 bytes (cut to the decoder's buffer)", rep(4096, len(data)), false, false},
+				{"one byte per read around the end of the FIRST big value, empty reads in between", c03Zeros(r, around(E0, 8, 40)), true, false},
+			}
+			for j, sc := range scheds {
+				f := File{Name: name, Data: data, Chunks: sc.ch, Exact: sc.exact, DataErr: sc.dataErr}
+				emit(Case{ID: fmt.Sprintf("%s/%d", g, j), Req: RunReq(c03BigProg, nil, []File{f}, false), Group: g, GroupFields: fields, ImplOnly: true,
+					Meta: meta(sc.how), Oracle: oracle})
+			}
+			// a second file after the one with the big value
+			if si%3 == 0 {
+				second := []byte("{\"n\":1000}\n[2000]\n")
+				l2, e2 := c03BigLines(append(append([]string{}, vals...), `{"n":1000}`, `[2000]`))
+				want2 := strings.Join(l2, "") + e2
+				emit(Case{ID: g + "/two-files", Req: RunReq(c03BigProg, nil, []File{{Name: name, Data: data}, {Name: "second.data", Data: second}}, false), Fields: fields,
+					Meta: meta("followed by a second, small file"), Oracle: func(i Resp) string {
+						if i["class"] != "ok" || string(i.Bytes("out")) != want2 {
+							return fmt.Sprintf("two files: class %s, output ends with %q, expected %q", i["class"], short(lastLine(string(i.Bytes("out")))), e2)
+						}
+						return ""
+					}})
+			}
+			// the stream cut inside the value after the last big one / stray text after it: a JSON error
+			// naming the file, after the complete values
+			if si%2 == 0 && bigIdx[len(bigIdx)-1]+1 < len(vals) {
+				k := bigIdx[len(bigIdx)-1] + 1 + r.Intn(len(vals)-bigIdx[len(bigIdx)-1]-1)
+				cutData := append([]byte{}, data[:ends[k]]...)
+				cutData = append(cutData, []byte(pick(r, []string{" {\"n\": ", " ]", " [1, 2", " \"open", " nul"}))...)
+				wantCut := strings.Join(lines[:k+1], "")
+				for _, dl := range []struct {
+					how string
+					f   File
+				}{{"whole", File{Name: name, Data: cutData}}, {"bursts of 4 KiB", File{Name: name, Data: cutData, Chunks: rep(4096, len(cutData)), Exact: true}}} {
+					c := Case{ID: g + "/fault-" + dl.how, Req: RunReq(c03BigProg, nil, []File{dl.f}, false), Fields: fields, Meta: meta("faulty text after value " + strconv.Itoa(k) + ", " + dl.how),
+						NonTrivial: c03NT, Oracle: func(i Resp) string {
+							if i["class"] != "json" || string(i.Bytes("file")) != name {
+								return fmt.Sprintf("faulty text after value %d: class %s file %q, expected a JSON input error naming %q", k, i["class"], i.Bytes("file"), name)
+							}
+							if got := string(i.Bytes("out")); got != wantCut {
+								return fmt.Sprintf("faulty text after value %d: the output must be that of the %d complete values; it ends with %q", k, k+1, short(lastLine(got)))
+							}
+							return ""
+						}}
+					if dl.f.Exact {
+						c.ModelReq = RunReq(c03BigProg, nil, []File{{Name: name, Data: cutData}}, false)
+					}
+					emit(c)
+				}
+			}
+			// the real binary: a named file, stdin (a pipe the harness writes without pausing)
+			if haveBin && (tier == "thorough" || si%2 == 1 || zi < 7) {
+				cliOracle := func(i Resp) string {
+					if w := c04CliBasic(i); w != "" {
+						return w
+					}
+					if i["exit"] != "0" || i["errlen"] != "0" {
+						return "the binary fails on a valid stream: exit " + i["exit"] + " " + short(string(i.Bytes("stderr")))
+					}
+					return oracle(Resp{"class": "ok", "out": i["out"]})
+				}
+				cliFields := []string{"exit", "out", "err"}
+				nt := func(i Resp) bool { return i["exit"] == "0" && i["out"] != "-" }
+				emit(Case{ID: g + "/binary-file", Req: CliReq([]string{c03BigProg, name}, nil, false, []CliFile{{Name: name, Data: data}}, ""), Fields: cliFields,
+					Meta: meta("the real binary, the stream in a named file"), Oracle: cliOracle, NonTrivial: nt})
+				emit(Case{ID: g + "/binary-stdin", Req: CliReq([]string{c03BigProg}, data, true, nil, ""), Fields: cliFields,
+					Meta: meta("the real binary, the stream on stdin (a pipe)"), Oracle: cliOracle, NonTrivial: nt})
+			}
+		}
+	}
+}
+
+func lastLine(s string) string {
+	s = strings.TrimSuffix(s, "\n")
+	return s[strings.LastIndexByte(s, '\n')+1:]
+}
+
+func init() {
+	register(Family{
+		Name: "fault-after-assign", Prop: "C03",
+		Rule: "one to three input files (names that look like values a program might store: \"renamed\", \"x\", \"7\", \"<stdin>\", the empty name) and programs that ASSIGN $file, $ and $index -- in BEGINFILE, pattern and ENDFILE rules, in a pattern, through a function, with strings, numbers, null, arrays, objects, compound assignment and ++ -- with a fault (truncation at a random byte, single-byte corruption, stray text after the last value, a reader that fails after a random prefix, also in the same Read call as the last bytes) in the value AFTER the assignments of the same file or in a later file; compared with the model on class, out, file; oracle: a JSON input error that names the real input file, ok only if Go's decoder accepts every stream; Group: the output equals that of the clean run on the values complete before the fault",
+		Gen:  c03FaultAfterAssign,
+	})
+	register(Family{
+		Name: "big-values", Prop: "C03",
+		Rule: "streams of 2-90 top-level values of which one to three are BIG -- exactly 1000, 4095, 4097, 8193, 16385, 32767/8/9, 60 KiB, 65535/6/7, 65 KiB, 70000, 100 KiB, 131071/3, 262145, 300 KiB bytes (thorough: also 512 KiB+1, 1 MiB+1, 3 MiB): objects with a long string / a string full of escapes and multi-byte text / a long array of numbers / an array of small objects / an object nested some hundred levels / an object with many keys, top-level long strings and top-level long arrays -- at the start, in the middle, at the end, two of them, two or three adjacent, separated by newlines, mixed white space or nothing; delivered as much as the decoder asks for (compared with the model; reference of the Group), everything with io.EOF in one call, in bursts of 512 B / 4 KiB / 64 KiB / random sizes (bursts are exact arrival boundaries), one byte per read around the end of the big value, a burst ending exactly at / one byte before / one byte after / a few values after the end of the big value, with empty reads; followed by a second file; cut or corrupted after a value that follows the big one (JSON error naming the file after the complete values); and through the REAL BINARY from a named file and from a stdin pipe (compared with the model of the wrapper). Closed-form oracle: BEGINFILE prints id and size of every top-level value, END the count, the number of records and an order-sensitive checksum: every value exactly once, in order",
+		Gen:  c03BigValues,
+	})
 }
